@@ -557,6 +557,35 @@ def r09_11(ctx):
         else:
             ok3, det = False, "return value of unrecognised origin"
     ctx.ob("count-is-inner-count", ok3, site(b), det)
+    # the inner reader is let go only on evidence of its end: a read that returned 0
+    drops = []
+    for bi in sorted(b.reach()):
+        for s_ in b.blocks[bi]["stmts"]:
+            if s_["k"] == "assign" and s_["p"]["l"] == 1 and s_["p"]["pr"] and s_["p"]["pr"][-1]["k"] == "field" and "Option<" in s_["p"]["pr"][-1].get("ty", ""):
+                drops.append((bi, s_))
+    for bb, t in b.calls():
+        f = fn_of(t) or {}
+        if f.get("name") in ("take", "replace") and f.get("def", "").startswith(("std::option::Option", "std::mem::")) and t["args"] and trace(b, t["args"][0]).origin == ("arg", 1):
+            drops.append((bb, None))
+    zero_edges = []
+    for sb in sorted(b.reach()):
+        sw = b.blocks[sb]["term"]
+        if sw["k"] != "switch" or sw.get("discr_ty") != "bool" or not is_place(sw["discr"]):
+            continue
+        dl = sw["discr"]["p"]["l"]
+        for s_ in b.blocks[sb]["stmts"]:
+            if s_["k"] == "assign" and s_["p"]["l"] == dl and s_["rv"]["k"] == "binop" and s_["rv"]["op"] in ("Eq", "Ne") and const_value(s_["rv"]["b"]) == 0:
+                nt = trace(b, s_["rv"]["a"])
+                from_read = bool(inner and nt.origin and nt.origin[0] == "call" and (nt.origin[2] is inner[0][1] or (fn_of(nt.origin[2]) or {}).get("def") == "std::ops::Try::branch"))
+                if from_read:
+                    zero = [x for v_, x in sw["targets"] if v_ == 0]
+                    if s_["rv"]["op"] == "Eq":
+                        zero_edges.append((sb, "otherwise", sw["otherwise"]))
+                    elif zero:
+                        zero_edges.append((sb, 0, zero[0]))
+    for bi, s_ in drops:
+        ok4 = any(b.edge_dominates(e[0], e[1], e[2], bi) for e in zero_edges)
+        ctx.ob("inner-dropped-only-at-eof", ok4, site(b, bi), "the inner reader is released only after one of its reads returned 0" if ok4 else "the inner reader can be released before it reported its end: bytes it still holds are lost")
 
 
 @rule("R09.5", 2, "undetected input yields exactly the documented error, and only on the None arm of detection", ["C09"])
